@@ -46,19 +46,51 @@ class Slot:
 
 
 # ------------------------------------------------------------------ snapshots
+KNOWN_ATTRS = {"pauli": ("g", "p"), "mono": ("g", "p", "c"), "list": ("gs", "ps"), "map": ("gs", "ps"),
+               "poly": ("gs", "ps", "cs"), "state": ("gs", "ps", "r")}
+
+
+def _digest_any(v, depth=0):
+    if hasattr(v, "detach") or isinstance(v, np.ndarray):
+        return _arr(v)
+    if depth < 4 and isinstance(v, dict):
+        return tuple(sorted((repr(k), _digest_any(x, depth + 1)) for k, x in v.items()))
+    if depth < 4 and isinstance(v, (list, tuple)):
+        return tuple(_digest_any(x, depth + 1) for x in v)
+    for k in ("gs", "g"):
+        if depth < 4 and hasattr(v, k):
+            return tuple((a, _digest_any(getattr(v, a), depth + 1)) for a in ("g", "p", "c", "gs", "ps", "cs", "r")
+                         if hasattr(v, a))
+    return repr(v)[:200]
+
+
+def hidden_state(o, kind):
+    """anything an object carries beyond its documented fields (caches, memos).  It is part of
+    the snapshot of objects that are NOT involved in a step: a cache may be filled by a call
+    on the object itself, but nothing may change it behind the object's back."""
+    try:
+        d = vars(o)
+    except TypeError:
+        return ()
+    known = KNOWN_ATTRS.get(kind, ())
+    return tuple(sorted((k, _digest_any(v)) for k, v in d.items() if k not in known))
+
+
 def snap_value(o, kind):
     if kind == "pauli":
-        return ("pauli", _arr(o.g), int(o.p) % 4)
-    if kind == "mono":
-        return ("mono", _arr(o.g), int(o.p) % 4, complex(o.c))
-    if kind in ("list", "map"):
-        return (kind, _arr(o.gs), _arr(o.ps))
-    if kind == "poly":
-        return ("poly", _arr(o.gs), _arr(o.ps), _arr(o.cs))
-    if kind == "state":
+        core = ("pauli", _arr(o.g), int(o.p) % 4)
+    elif kind == "mono":
+        core = ("mono", _arr(o.g), int(o.p) % 4, complex(o.c))
+    elif kind in ("list", "map"):
+        core = (kind, _arr(o.gs), _arr(o.ps))
+    elif kind == "poly":
+        core = ("poly", _arr(o.gs), _arr(o.ps), _arr(o.cs))
+    elif kind == "state":
         r = o.r
-        return ("state", _arr(o.gs), _arr(o.ps), int(r) if isinstance(r, (int, np.integer)) else repr(r))
-    raise KeyError(kind)
+        core = ("state", _arr(o.gs), _arr(o.ps), int(r) if isinstance(r, (int, np.integer)) else repr(r))
+    else:
+        raise KeyError(kind)
+    return core + (("hidden", hidden_state(o, kind)),)
 
 
 def _ref_inverse_images(images):
@@ -130,7 +162,11 @@ def gate_unchanged(b, a):
     return _maps_equiv_lazy(b[3], a[3], b[4]) and _maps_equiv_lazy(b[4], a[4], b[3])
 
 
-def unchanged(before, after, kind):
+def unchanged(before, after, kind, strict_hidden=True):
+    if kind in VALUE_KINDS:
+        if before[:-1] != after[:-1]:
+            return False
+        return before[-1] == after[-1] if strict_hidden else True
     if kind == "gate":
         return gate_unchanged(before, after)
     if kind == "layer":
@@ -294,7 +330,7 @@ class ObjWorld(Run):
     def snapshot_all(self):
         return {name: snap(s.obj, s.kind) for name, s in self.slots.items()}
 
-    def frame_check(self, pre, writes, ctx):
+    def frame_check(self, pre, writes, ctx, involved=()):
         wroots = set()
         for w in writes:
             if w in self.slots:
@@ -309,9 +345,10 @@ class ObjWorld(Run):
                 after = snap(s.obj, s.kind)
             except Exception as e:
                 raise Violation("c17.frame", {"ctx": ctx, "changed": name, "kind": s.kind, "exc": repr(e)})
-            if not unchanged(before, after, s.kind):
+            if not unchanged(before, after, s.kind, strict_hidden=name not in involved):
+                hid = s.kind in VALUE_KINDS and before[:-1] == after[:-1]
                 raise Violation("c17.frame", {"ctx": ctx, "changed": name, "kind": s.kind,
-                                              "writes": sorted(writes)})
+                                              "writes": sorted(writes), "hidden_state_only": hid})
         self.oracle_steps += 1
 
     # ---------------------------------------------------------- proposals
@@ -724,6 +761,8 @@ class ObjWorld(Run):
         if k2 != s.kind:
             raise Violation("c17.copy_kind", {"kind": s.kind, "got": k2})
         a, b = snap(s.obj, s.kind), snap(cp, s.kind)
+        if s.kind in VALUE_KINDS:
+            a, b = a[:-1], b[:-1]     # documented fields; a copy need not duplicate caches
         if a != b:
             raise Violation("c17.copy_unfaithful", {"kind": s.kind, "diff": _first_diff(a, b)})
         if shares(cp, s.kind, s.obj, s.kind):
@@ -731,7 +770,7 @@ class ObjWorld(Run):
         self.stats["copy:" + s.kind] += 1
         self.slots[op["slot"]] = Slot(cp, s.kind, {self.fresh()})
         pre.pop(op["slot"], None)
-        self.frame_check(pre, set(), "copy:" + s.kind)
+        self.frame_check(pre, set(), "copy:" + s.kind, involved={op["src"]})
         self.nontrivial = True
         self.trans.add(hash(("copy", s.kind)) & 0xFFFFFFFFFFFF)
         return s.kind
@@ -922,7 +961,7 @@ class ObjWorld(Run):
             self.stats["env_error:%s.%s:%s" % (s.kind, q, type(e).__name__)] += 1
             res = None
         self.stats["query"] += 1
-        self.frame_check(pre, set(), "query:%s.%s" % (s.kind, q))
+        self.frame_check(pre, set(), "query:%s.%s" % (s.kind, q), involved=set(inputs))
         self.nontrivial = True
         self.trans.add(hash(("q", s.kind, q)) & 0xFFFFFFFFFFFF)
         if res is not None:
@@ -1045,7 +1084,7 @@ class ObjWorld(Run):
                 if y is not recv and shares(y.obj, y.kind, recv.obj, recv.kind):
                     y.roots |= recv.roots
         self.stats["inplace:" + which] += 1
-        self.frame_check(pre, writes, "inplace:" + which)
+        self.frame_check(pre, writes, "inplace:" + which, involved={op.get(k) for k in ("recv", "arg", "unit")})
         self.nontrivial = True
         self.trans.add(hash(("ip", which, recv.kind, arg.kind if arg else None)) & 0xFFFFFFFFFFFF)
         return which
